@@ -278,6 +278,37 @@ func (p *untypedParamBinder) Bind(request *http.Request, routeParams RouteParams
 	}
 }
 
+// isSent reports whether the request carries the parameter at all (possibly with an empty value).
+//
+// For form parameters it relies on the form having been parsed by Bind.
+func (p *untypedParamBinder) isSent(request *http.Request, routeParams RouteParams) bool {
+	name := p.parameter.Name
+	var values runtime.Gettable
+	switch p.parameter.In {
+	case "query":
+		values = runtime.Values(request.URL.Query())
+	case "header":
+		name = http.CanonicalHeaderKey(name)
+		values = runtime.Values(request.Header)
+	case "path":
+		values = routeParams
+	case "formData":
+		switch {
+		case p.parameter.Type == "file":
+			return request.MultipartForm != nil && len(request.MultipartForm.File[name]) > 0
+		case request.MultipartForm != nil:
+			values = runtime.Values(request.MultipartForm.Value)
+		default:
+			values = runtime.Values(request.PostForm)
+		}
+	default:
+		return true
+	}
+	_, hasKey, _ := values.GetOK(name)
+
+	return hasKey
+}
+
 func (p *untypedParamBinder) bindValue(data []string, hasKey bool, target reflect.Value) error {
 	if p.parameter.Type == typeArray {
 		return p.setSliceFieldValue(target, p.parameter.Default, data, hasKey)
